@@ -34,6 +34,9 @@ func fmtDesc(f tds.FieldFmt, wide bool) tdspkg.Fmt {
 	return r
 }
 
+// RefFmt returns the reference description of a library format (what its accessors report).
+func RefFmt(f tds.FieldFmt, wide bool) tdspkg.Fmt { return fmtDesc(f, wide) }
+
 func valueDesc(dt asetypes.DataType, v interface{}) string {
 	switch x := v.(type) {
 	case *asetypes.Decimal:
